@@ -430,6 +430,46 @@ class Resolver:
     def resolve_call(self, fn: FunctionInfo, call: ast.Call,
                      count: bool = True) -> list[Target]:
         targets = self.resolve_ref(fn, call.func)
+        # a local that only ever names functions (`f = np.savez` in one
+        # branch, `f = np.savez_compressed` in the other): the union of what
+        # its definitions name
+        if isinstance(call.func, ast.Name) and not isinstance(
+                fn.node, ast.Lambda) and not any(
+                    t.kind in ("internal", "class", "external")
+                    for t in targets):
+            name = call.func.id
+            vals = []
+            plain = True
+            for n in ast.walk(fn.node):
+                tg = None
+                if isinstance(n, ast.Assign):
+                    tg, v = n.targets, n.value
+                elif isinstance(n, ast.AnnAssign):
+                    tg, v = [n.target], n.value
+                if tg and any(isinstance(t, ast.Name) and t.id == name
+                              for t in tg):
+                    if v is None:
+                        continue      # bare annotation
+                    if isinstance(v, (ast.Name, ast.Attribute)) and len(tg) == 1:
+                        vals.append(v)
+                    else:
+                        plain = False
+                elif isinstance(n, (ast.For, ast.comprehension, ast.withitem,
+                                    ast.NamedExpr, ast.arg)) and any(
+                        isinstance(x, ast.Name) and x.id == name and
+                        isinstance(getattr(x, "ctx", None), ast.Store)
+                        for x in ast.walk(n)) and not isinstance(n, ast.arg):
+                    pass
+            if name in fn.params():
+                plain = False
+            if plain and vals and not any(
+                    isinstance(v, ast.Name) and v.id == name for v in vals):
+                union: list[Target] = []
+                for v in vals:
+                    union += self.resolve_ref(fn, v)
+                if any(t.kind in ("internal", "class", "external")
+                       for t in union):
+                    targets = union
         conv: list[Target] = []
         for t in targets:
             if t.kind == "value":
